@@ -13,8 +13,9 @@
 (*  {"e":"PreCheck","by":"id|name","bit":b,"name":s,"levels":[..],"disc":[bool..],"res":..}           *)
 (*        detail::discard_by_level                                                                   *)
 (*  {"e":"GetLog","by":"mask|name","mask":[bits],"name":s,"res":"found|null|exception"}               *)
-(* The filter objects are private: TLC recomputes them from the arguments; the only branching is    *)
-(* whether a refused replacement kept the old class filter.                                          *)
+(* The filter objects are private: TLC recomputes them from the arguments (one successor per event, *)
+(* the runner locates a rejected event by the number of states generated).  A refused setting        *)
+(* (exception) leaves the filters attached before the call attached (keep = TRUE).                    *)
 EXTENDS LogRouting, TLC, Json, IOUtils
 VARIABLE l
 Log == ndJsonDeserialize(IOEnv.TRACE)
@@ -32,7 +33,7 @@ TSetFilter(ev) ==
                         IF ev.t = "cls" /\ valid THEN RangeOf(ev.toks) ELSE {})
    IN /\ ev.t \in FilterTypes
       /\ ev.res \in SetFilterResults(ev.log, ev.dest, e, valid)
-      /\ \E keep \in BOOLEAN : SetFilter(ev.log, ev.dest, e, valid, keep)
+      /\ SetFilter(ev.log, ev.dest, e, valid, TRUE)
 
 TNext == /\ l <= Len(Log) /\ l' = l + 1
          /\ \/ Ev.e = "Reset" /\ logs' = <<>> /\ policy' = "ignore"
@@ -45,11 +46,11 @@ TNext == /\ l <= Len(Log) /\ l' = l + 1
             \/ Ev.e = "SetFilter" /\ TSetFilter(Ev)
             \/ /\ Ev.e = "Send"
                /\ IF MacroRefused(Ev) THEN Ev.res = "exception" /\ Ev.got = <<>>
-                  ELSE Ev.res = "ok" /\ DeliveredOK(Ev.got, Sel(Ev), Ev.msgs)
+                  ELSE Ev.res = "ok" /\ DeliveredOK(Ev.got, Sel(Ev), Ev.msgs) = TRUE
                /\ UNCHANGED vars
             \/ /\ Ev.e = "PreCheck" /\ Ev.res = "ok" /\ Len(Ev.disc) = Len(Ev.levels)
                /\ LET k == IF Ev.by = "id" THEN (IF Ev.bit + 1 \in DOMAIN logs THEN Ev.bit + 1 ELSE 0) ELSE LogIdx(Ev.name)
-                  IN \A i \in DOMAIN Ev.levels : PreCheckOK(k, Ev.levels[i], Ev.disc[i])
+                  IN (\A i \in DOMAIN Ev.levels : PreCheckOK(k, Ev.levels[i], Ev.disc[i])) = TRUE   \* "= TRUE": evaluated as a value, never split into successors
                /\ UNCHANGED vars
             \/ /\ Ev.e = "GetLog"
                /\ Ev.res \in (IF Ev.by = "mask" THEN GetLogResults(RangeOf(Ev.mask)) ELSE GetLogByNameResults(Ev.name))
